@@ -1,4 +1,5 @@
 SPECIFICATION Spec
 CONSTANTS MaxOps = 5  Dev = {"ParamsWrittenBack"}
 INVARIANT NoLeak
+INVARIANT KidIsOwn
 CHECK_DEADLOCK FALSE
